@@ -456,12 +456,14 @@ pub fn simple_path_oracle(g: &G, s: usize) -> (bool, Vec<Option<i128>>) {
         on: &mut Vec<bool>,
         best: &mut Vec<Option<i128>>,
         neg: &mut bool,
+        extreme: &mut i128,
     ) {
         if best[v].is_none_or(|b| acc < b) {
             best[v] = Some(acc);
         }
         for x in g.out(v) {
             let w = g.w(v, x).unwrap() as i128;
+            *extreme = (*extreme).max((acc + w).abs());
             if on[x] {
                 // circuit x .. v -> x ; prefix weight at x is stored in path
                 let at_x = path.iter().find(|p| p.0 == x).unwrap().1;
@@ -471,7 +473,7 @@ pub fn simple_path_oracle(g: &G, s: usize) -> (bool, Vec<Option<i128>>) {
             } else {
                 on[x] = true;
                 path.push((x, acc + w));
-                go(g, x, acc + w, path, on, best, neg);
+                go(g, x, acc + w, path, on, best, neg, extreme);
                 let _ = path.pop();
                 on[x] = false;
             }
@@ -483,8 +485,25 @@ pub fn simple_path_oracle(g: &G, s: usize) -> (bool, Vec<Option<i128>>) {
     let mut neg = false;
     on[s] = true;
     let mut path = vec![(s, 0)];
-    go(g, s, 0, &mut path, &mut on, &mut best, &mut neg);
+    let mut extreme = 0;
+    go(g, s, 0, &mut path, &mut on, &mut best, &mut neg, &mut extreme);
+    EXTREME.with(|e| e.set(extreme));
     (neg, best)
+}
+
+thread_local! {
+    static EXTREME: Cell<i128> = const { Cell::new(0) };
+}
+
+/// the largest |sum| along any simple path or circuit from any source: the
+/// "path sums fit in isize" precondition of C07 / C08
+pub fn largest_path_sum(g: &G) -> i128 {
+    let mut m = 0;
+    for s in 0..g.order() {
+        let _ = simple_path_oracle(g, s);
+        m = m.max(EXTREME.with(Cell::get));
+    }
+    m
 }
 
 /// Large structured digraphs (word-size boundaries hide behind ids 31/32/33,
